@@ -266,6 +266,9 @@ def size_source(kind, n):
     if kind == 'listpair':
         d = 180 + 2 * n
         return 'p([' + ','.join(['a'] * d) + '|T]).\n', [('p', 1)]
+    if kind == 'bignum':
+        d = 4290 + n          # around CPython's 4300-digit limit for integer literals
+        return 'p(' + '7' * d + ').\np2(X) :- X = 0' + '3' * d + '.\n', [('p', 1), ('p2', 1)]
     if kind == 'dead':
         srcs = ['p :- fail.\n', 'p :- fail, q.\n', 'p :- \\+ true.\n', 'p :- (fail -> q ; fail).\n', 'p(X) :- X = 1, fail.\np(2).\n',
                 'p :- !, fail.\n', 'p :- true.\n', 'p :- (fail ; fail).\n']
@@ -274,7 +277,7 @@ def size_source(kind, n):
     raise ValueError(kind)
 
 
-KINDS = ['conj', 'conjfail', 'ite', 'neg', 'term', 'bodyterm', 'listpair', 'dead']
+KINDS = ['conj', 'conjfail', 'ite', 'neg', 'term', 'bodyterm', 'listpair', 'bignum', 'dead']
 
 
 def make_body_d(kind, info):
@@ -289,8 +292,42 @@ def make_body_d(kind, info):
     return spec, body
 
 
+class ReservedNames(ch.DirectUnit):
+    """every name that Python or the engine context reserves and that IS a VARIABLE lexeme, used as a variable in several
+    positions (exhaustive over that finite set; the symbolic obligation C11.b is bounded by length)"""
+
+    def __init__(self):
+        self.info = {}
+
+    def names(self):
+        cand = lexstub.reserved_python_names() + lexstub.engine_context_names() + ['V_True', 'V_', 'V_V_X', '_x1', '__class__', '__builtins__', 'Arg1', 'L1']
+        return sorted(set(n for n in cand if _var_lexeme_ok(n)))
+
+    def sources(self, nm):
+        return ['p(%s) :- q(%s).' % (nm, nm), 'p([a|%s], %s).' % (nm, nm), 'p(f(%s, [%s]), X) :- X = %s, \\+ q(%s).' % (nm, nm, nm, nm),
+                'p(X) :- (q(%s) -> r(%s, V_%s) ; X = %s).' % (nm, nm, nm, nm)]
+
+    def run(self):
+        cases = 0
+        for nm in self.names():
+            for src in self.sources(nm):
+                cases += 1
+                r, why = check_loads(src + '\n', self.info, None)
+                if r == ch.VIOLATED:
+                    return dict(verdict='violated', counterexample={'source': src}, message=self.info.get('reason'), state='RESERVED',
+                                replay=dict(native_result=2, info=dict(self.info)))
+        return dict(verdict='discharged', state='VALIDATION', paths=0, nontrivial=cases, solver_queries=cases,
+                    validation=dict(kind='exhaustive over the reserved names that are VARIABLE lexemes (native)', names=self.names(), cases=cases),
+                    sample=dict(names=self.names()))
+
+    def run_native(self, args):
+        r, why = check_loads(args['source'] + '\n', self.info, None)
+        return 2 if r == ch.VIOLATED else 0
+
+
 def units(tier, seed):
     us = []
+    us.append(dict(id='b3.reserved-names', kind='b3', fixed={}, ob='C11.b', timeout=300, weight=30, bounds='all reserved names that are VARIABLE lexemes x 4 positions'))
     la, lb = (3, 4) if tier == 'quick' else (5, 6)
     for first in ('01', '23', '45', '67', '89'):
         us.append(dict(id='a.numeral.len%d.first%s' % (la, first), kind='a', maxlen=la, fixed={}, extra=["d[0] in '%s'" % first], ob='C11.a',
@@ -322,6 +359,8 @@ def units(tier, seed):
 def build(u):
     info = {}
     k = u['kind']
+    if k == 'b3':
+        return ReservedNames()
     if k == 'a':
         spec, body = make_body_a(u['maxlen'], info)
     elif k == 'b':
